@@ -438,6 +438,7 @@ type opErr struct {
 }
 
 func firstOps(d *Dialogue, s *Session, conn *devsim.Conn, dev *Dev, a *Analysis, info *Info) *opErr {
+	opStart := time.Now()
 	wantPrompt := strings.TrimSpace(d.Prompt)
 	wantOut := devsim.RenderRef(d.Out, d.NL, d.Prompt, true)
 	getPrompt := func(tag string) *opErr {
@@ -449,6 +450,9 @@ func firstOps(d *Dialogue, s *Session, conn *devsim.Conn, dev *Dev, a *Analysis,
 			p, err = s.GD.GetPrompt()
 		}
 		if err != nil {
+			if errors.Is(err, util.ErrTimeoutError) && (mon.LoadedSince(opStart) || conn.Delivered() < len(conn.Stream())) {
+				return &opErr{inconclusive: true, msg: "first GetPrompt timed out under load"}
+			}
 			return &opErr{key: "c10/first-getprompt:error", msg: fmt.Sprintf("GetPrompt (%s) after login returned %v", tag, err)}
 		}
 		if strings.TrimSpace(p) != wantPrompt {
@@ -478,6 +482,9 @@ func firstOps(d *Dialogue, s *Session, conn *devsim.Conn, dev *Dev, a *Analysis,
 			}
 		}
 		if err != nil {
+			if errors.Is(err, util.ErrTimeoutError) && (mon.LoadedSince(opStart) || conn.Delivered() < len(conn.Stream())) {
+				return &opErr{inconclusive: true, msg: "first SendCommand timed out under load"}
+			}
 			return &opErr{key: "c10/first-sendcommand:error", msg: fmt.Sprintf("SendCommand (%s) after login returned %v", tag, err)}
 		}
 		if res != wantOut {
